@@ -435,6 +435,24 @@ fn stark_section(case: &Case, cx: &mut Ctx, r: &mut Rng) {
             faults.push(Fault::Set { path: vec![Seg::K("proof".into()), Seg::K("openings".into()), Seg::K(k.into())], value: json!([]) });
         }
         faults.push(Fault::Set { path: vec![Seg::K("proof".into()), Seg::K("openings".into()), Seg::K("ctl_zs_first".into())], value: json!([1, 2, 3]) });
+        // every combination of optional components switched off at once (a consistent-looking proof of another kind of STARK)
+        let opt: [(bool, &str); 6] = [(false, "auxiliary_polys_cap"), (false, "quotient_polys_cap"), (true, "auxiliary_polys"), (true, "auxiliary_polys_next"), (true, "ctl_zs_first"), (true, "quotient_polys")];
+        for mask in 1u32..64 {
+            if mask.count_ones() < 2 {
+                continue;
+            }
+            let mut pr = tree["proof"].clone();
+            for (i, (in_openings, k)) in opt.iter().enumerate() {
+                if mask >> i & 1 == 1 {
+                    if *in_openings {
+                        pr["openings"][*k] = Value::Null;
+                    } else {
+                        pr[*k] = Value::Null;
+                    }
+                }
+            }
+            faults.push(Fault::Set { path: vec![Seg::K("proof".into())], value: pr });
+        }
     }
     for f in &faults {
         let mut t = tree.clone();
